@@ -327,4 +327,279 @@ theorem deElems_step (c : Cfg) (f : Nat)
            simp only at h
            exact fun x hx => List.mem_cons_of_mem _ (hsub x (g2 v' r' h x hx)))
 
+theorem Rel.beyond {α : Type} (b : Res α) : Rel (.error .beyond) b := Or.inl rfl
+
+theorem deMap_step (c : Cfg) (f : Nat)
+    (ihM : ∀ vt root toks acc, Plain toks → Rel (deMap .ondemand c f vt root toks acc) (deMap .stream c f vt root toks acc) ∧ SubOut (deMap .stream c f vt root toks acc) toks)
+    (ihT : ∀ ty t rest, plainTok t = true → Plain rest → Rel (deTok .ondemand c f ty t rest) (deTok .stream c f ty t rest) ∧ SubOut (deTok .stream c f ty t rest) rest) :
+    ∀ vt root toks acc, Plain toks →
+      Rel (deMap .ondemand c (f + 1) vt root toks acc) (deMap .stream c (f + 1) vt root toks acc) ∧
+      SubOut (deMap .stream c (f + 1) vt root toks acc) toks := by
+  intro vt root toks acc hp
+  have hk := nextKey_rel root (f + 1) toks hp
+  have hksub := nextKey_sub .stream root (f + 1) toks hp
+  simp only [deMap]
+  generalize nextKey .stream root (f + 1) toks = ks at hk hksub ⊢
+  generalize nextKey .ondemand root (f + 1) toks = ko at hk ⊢
+  cases ks with
+  | error e =>
+    refine ⟨?_, by simp [SubOut]⟩
+    rcases hk with hk | hk <;> subst hk <;> simp [Rel]
+  | ok x =>
+    obtain ⟨kopt, rest⟩ := x
+    obtain ⟨hrs, hkt⟩ := hksub kopt rest rfl
+    have hpr : Plain rest := hp.sub hrs
+    cases kopt with
+    | none =>
+      refine ⟨?_, ?_⟩
+      · rcases hk with hk | hk <;> subst hk <;> simp [Rel]
+      · intro v r h; simp at h; obtain ⟨_, rfl⟩ := h; exact hrs
+    | some kt =>
+      have hpk := hkt kt rfl
+      obtain ⟨a1, a2⟩ := ihT .str kt rest hpk hpr
+      have hko : ko = .error .beyond ∨ ko = .ok (some kt, rest) := hk
+      clear hk hksub hkt
+      refine ⟨?rel, ?sub⟩
+      case sub =>
+        dsimp only
+        intro v' r' h
+        generalize hs1 : deTok .stream c f .str kt rest = s1 at a2 h
+        cases s1 with
+        | error e => simp at h
+        | ok x1 =>
+          obtain ⟨k, r1⟩ := x1
+          have hr1 := a2 k r1 rfl
+          have hpr1 : Plain r1 := hpr.sub hr1
+          dsimp only at h
+          cases hs2 : nextValue .stream r1 with
+          | error e => simp [hs2] at h
+          | ok x2 =>
+            obtain ⟨vtok, r2⟩ := x2
+            obtain ⟨hpv, hr2⟩ := nextValue_sub .stream r1 hpr1 vtok r2 hs2
+            have hpr2 : Plain r2 := hpr1.sub hr2
+            obtain ⟨_, b2⟩ := ihT vt vtok r2 hpv hpr2
+            simp only [hs2] at h
+            generalize hs3 : deTok .stream c f vt vtok r2 = s3 at b2 h
+            cases s3 with
+            | error e => simp at h
+            | ok x3 =>
+              obtain ⟨v, r3⟩ := x3
+              have hr3 := b2 v r3 rfl
+              have hpr3 : Plain r3 := hpr2.sub hr3
+              obtain ⟨_, m2⟩ := ihM vt root r3 (acc ++ [k ++ "=" ++ v]) hpr3
+              dsimp only at h
+              exact fun x hx => hrs x (hr1 x (hr2 x (hr3 x (m2 v' r' h x hx))))
+      case rel =>
+        rcases hko with hko | hko <;> subst hko
+        · exact Rel.beyond _
+        · dsimp only
+          generalize hs1 : deTok .stream c f .str kt rest = s1 at a1 a2 ⊢
+          cases s1 with
+          | error e => rcases a1 with a1 | a1 <;> simp [a1, Rel]
+          | ok x1 =>
+            obtain ⟨k, r1⟩ := x1
+            have hr1 := a2 k r1 rfl
+            have hpr1 : Plain r1 := hpr.sub hr1
+            have hnv := nextValue_plain r1 hpr1
+            rcases a1 with a1 | a1
+            · simp [a1, Rel]
+            · rw [a1]
+              dsimp only
+              rw [hnv]
+              cases hs2 : nextValue .stream r1 with
+              | error e => simp [Rel]
+              | ok x2 =>
+                obtain ⟨vtok, r2⟩ := x2
+                obtain ⟨hpv, hr2⟩ := nextValue_sub .stream r1 hpr1 vtok r2 hs2
+                have hpr2 : Plain r2 := hpr1.sub hr2
+                obtain ⟨b1, b2⟩ := ihT vt vtok r2 hpv hpr2
+                dsimp only
+                generalize hs3 : deTok .stream c f vt vtok r2 = s3 at b1 b2 ⊢
+                cases s3 with
+                | error e => rcases b1 with b1 | b1 <;> simp [b1, Rel]
+                | ok x3 =>
+                  obtain ⟨v, r3⟩ := x3
+                  have hr3 := b2 v r3 rfl
+                  have hpr3 : Plain r3 := hpr2.sub hr3
+                  obtain ⟨m1, _⟩ := ihM vt root r3 (acc ++ [k ++ "=" ++ v]) hpr3
+                  rcases b1 with b1 | b1
+                  · simp [b1, Rel]
+                  · rw [b1]; exact m1
+
+/-- the common tail of the struct loop: read the value token, deserialize it as `ty`, continue. -/
+theorem struct_tail (c : Cfg) (f : Nat) (fs : Fields) (bt root : Bool) (toks rest : List Tok)
+    (hrs : ∀ x ∈ rest, x ∈ toks) (hpr : Plain rest)
+    (ihS : ∀ fs bt root toks slots, Plain toks → Rel (deStruct .ondemand c f fs bt root toks slots) (deStruct .stream c f fs bt root toks slots) ∧ SubOut (deStruct .stream c f fs bt root toks slots) toks)
+    (ihT : ∀ ty t rest, plainTok t = true → Plain rest → Rel (deTok .ondemand c f ty t rest) (deTok .stream c f ty t rest) ∧ SubOut (deTok .stream c f ty t rest) rest)
+    (ty : Ty) (next : String → List (Option String)) :
+    Rel
+      (match nextValue .ondemand rest with
+        | .error e => (Except.error e : Res (String × List Tok))
+        | .ok (vtok, r2) =>
+          match deTok .ondemand c f ty vtok r2 with
+          | .error e => .error e
+          | .ok (v, r3) => deStruct .ondemand c f fs bt root r3 (next v))
+      (match nextValue .stream rest with
+        | .error e => (Except.error e : Res (String × List Tok))
+        | .ok (vtok, r2) =>
+          match deTok .stream c f ty vtok r2 with
+          | .error e => .error e
+          | .ok (v, r3) => deStruct .stream c f fs bt root r3 (next v)) ∧
+    SubOut
+      (match nextValue .stream rest with
+        | .error e => (Except.error e : Res (String × List Tok))
+        | .ok (vtok, r2) =>
+          match deTok .stream c f ty vtok r2 with
+          | .error e => .error e
+          | .ok (v, r3) => deStruct .stream c f fs bt root r3 (next v)) toks := by
+  rw [nextValue_plain rest hpr]
+  cases hs2 : nextValue .stream rest with
+  | error e => simp [Rel, SubOut]
+  | ok x2 =>
+    obtain ⟨vtok, r2⟩ := x2
+    obtain ⟨hpv, hr2⟩ := nextValue_sub .stream rest hpr vtok r2 hs2
+    have hpr2 : Plain r2 := hpr.sub hr2
+    obtain ⟨b1, b2⟩ := ihT ty vtok r2 hpv hpr2
+    dsimp only
+    generalize hs3 : deTok .stream c f ty vtok r2 = s3 at b1 b2 ⊢
+    cases s3 with
+    | error e =>
+      refine ⟨?_, by simp [SubOut]⟩
+      rcases b1 with b1 | b1 <;> simp [b1, Rel]
+    | ok x3 =>
+      obtain ⟨v, r3⟩ := x3
+      have hr3 := b2 v r3 rfl
+      have hpr3 : Plain r3 := hpr2.sub hr3
+      obtain ⟨m1, m2⟩ := ihS fs bt root r3 (next v) hpr3
+      refine ⟨?_, ?_⟩
+      · rcases b1 with b1 | b1
+        · simp [b1, Rel]
+        · rw [b1]; exact m1
+      · intro v' r' h
+        dsimp only at h
+        exact fun x hx => hrs x (hr2 x (hr3 x (m2 v' r' h x hx)))
+
+theorem deStruct_step (c : Cfg) (f : Nat)
+    (ihS : ∀ fs bt root toks slots, Plain toks → Rel (deStruct .ondemand c f fs bt root toks slots) (deStruct .stream c f fs bt root toks slots) ∧ SubOut (deStruct .stream c f fs bt root toks slots) toks)
+    (ihT : ∀ ty t rest, plainTok t = true → Plain rest → Rel (deTok .ondemand c f ty t rest) (deTok .stream c f ty t rest) ∧ SubOut (deTok .stream c f ty t rest) rest) :
+    ∀ fs bt root toks slots, Plain toks →
+      Rel (deStruct .ondemand c (f + 1) fs bt root toks slots) (deStruct .stream c (f + 1) fs bt root toks slots) ∧
+      SubOut (deStruct .stream c (f + 1) fs bt root toks slots) toks := by
+  intro fs bt root toks slots hp
+  have hk := nextKey_rel root (f + 1) toks hp
+  have hksub := nextKey_sub .stream root (f + 1) toks hp
+  simp only [deStruct]
+  generalize nextKey .stream root (f + 1) toks = ks at hk hksub ⊢
+  generalize nextKey .ondemand root (f + 1) toks = ko at hk ⊢
+  cases ks with
+  | error e =>
+    refine ⟨?_, by simp [SubOut]⟩
+    rcases hk with hk | hk <;> subst hk <;> simp [Rel]
+  | ok x =>
+    obtain ⟨kopt, rest⟩ := x
+    obtain ⟨hrs, hkt⟩ := hksub kopt rest rfl
+    have hpr : Plain rest := hp.sub hrs
+    cases kopt with
+    | none =>
+      refine ⟨?_, ?_⟩
+      · rcases hk with hk | hk <;> subst hk <;> simp [Rel]
+      · intro v r h
+        cases hf : structFinish fs slots [] with
+        | error e => simp [hf, Except.map] at h
+        | ok s => simp [hf, Except.map] at h; obtain ⟨_, rfl⟩ := h; exact hrs
+    | some kt =>
+      have hpk := hkt kt rfl
+      have key : ∀ p, (match normTok p .any kt rest with
+          | .error e => (Except.error e : Res (Tok × List Tok))
+          | .ok x => .ok x) = .ok (kt, rest) := by
+        intro p; rw [normTok_plain p .any kt rest hpk]
+      have hn1 := normTok_plain .ondemand .any kt rest hpk
+      have hn2 := normTok_plain .stream .any kt rest hpk
+      suffices hgoal : Rel
+          (match (Except.ok (some kt, rest) : Res (Option Tok × List Tok)) with
+            | .error e => (Except.error e : Res (String × List Tok))
+            | .ok (none, rest) => (structFinish fs slots []).map (fun v => (v, rest))
+            | .ok (some kt0, rest0) =>
+              match normTok .ondemand .any kt0 rest0 with
+              | .error e => .error e
+              | .ok (kt, rest) =>
+              match seqFieldKey c fs bt kt with
+              | .error e => .error e
+              | .ok none =>
+                match nextValue .ondemand rest with
+                | .error e => .error e
+                | .ok (vtok, r2) =>
+                  match deTok .ondemand c f .ign vtok r2 with
+                  | .error e => .error e
+                  | .ok (_, r3) => deStruct .ondemand c f fs bt root r3 slots
+              | .ok (some i) =>
+                match slots[i]?, fs.get? i with
+                | some (some _), some (name, _, _) => .error (.duplicate name)
+                | some none, some (_, _, fty) =>
+                  match nextValue .ondemand rest with
+                  | .error e => .error e
+                  | .ok (vtok, r2) =>
+                    match deTok .ondemand c f fty vtok r2 with
+                    | .error e => .error e
+                    | .ok (v, r3) => deStruct .ondemand c f fs bt root r3 (slots.set i (some v))
+                | _, _ => .error .panic) _ ∧ SubOut _ toks by
+        refine ⟨?_, hgoal.2⟩
+        rcases hk with hk | hk <;> subst hk
+        · exact Rel.beyond _
+        · exact hgoal.1
+      dsimp only
+      rw [hn1, hn2]
+      dsimp only
+      cases seqFieldKey c fs bt kt with
+      | error e => simp [Rel, SubOut]
+      | ok w =>
+        cases w with
+        | none => exact struct_tail c f fs bt root toks rest hrs hpr ihS ihT .ign (fun _ => slots)
+        | some i =>
+          cases hsa : slots[i]? with
+          | none => simp [hsa, Rel, SubOut]
+          | some a =>
+            cases hfb : fs.get? i with
+            | none => cases a <;> simp [hsa, hfb, Rel, SubOut]
+            | some y =>
+              obtain ⟨name, tk, fty⟩ := y
+              cases a with
+              | some sv => simp [hsa, hfb, Rel, SubOut]
+              | none =>
+                simp only [hsa, hfb]
+                exact struct_tail c f fs bt root toks rest hrs hpr ihS ihT _ (fun v => slots.set i (some v))
+
+/-- the four loops together, for every fuel. -/
+theorem seq_paths_rel (c : Cfg) : ∀ f : Nat,
+    (∀ ty t rest, plainTok t = true → Plain rest → Rel (deTok .ondemand c f ty t rest) (deTok .stream c f ty t rest) ∧ SubOut (deTok .stream c f ty t rest) rest) ∧
+    (∀ et toks acc, Plain toks → Rel (deElems .ondemand c f et toks acc) (deElems .stream c f et toks acc) ∧ SubOut (deElems .stream c f et toks acc) toks) ∧
+    (∀ vt root toks acc, Plain toks → Rel (deMap .ondemand c f vt root toks acc) (deMap .stream c f vt root toks acc) ∧ SubOut (deMap .stream c f vt root toks acc) toks) ∧
+    (∀ fs bt root toks slots, Plain toks → Rel (deStruct .ondemand c f fs bt root toks slots) (deStruct .stream c f fs bt root toks slots) ∧ SubOut (deStruct .stream c f fs bt root toks slots) toks) := by
+  intro f
+  induction f with
+  | zero =>
+    refine ⟨?_, ?_, ?_, ?_⟩ <;> intros <;> simp [deTok, deElems, deMap, deStruct, Rel, SubOut]
+  | succ f ih =>
+    obtain ⟨ihT, ihE, ihM, ihS⟩ := ih
+    exact ⟨deTok_step c f ihE ihM ihS ihT, deElems_step c f ihE ihT, deMap_step c f ihM ihT, deStruct_step c f ihS ihT⟩
+
+/-- root requests: the on-demand model either leaves the token-level model or equals the streaming model. -/
+theorem seqRoot_rel (c : Cfg) (ty : RootTy) (toks : List Tok) (h : Plain toks) :
+    Rel (deSeqRoot .ondemand c ty toks) (deSeqRoot .stream c ty toks) := by
+  obtain ⟨_, _, hM, hS⟩ := seq_paths_rel c (2 * toks.length + rootSize ty + 8)
+  unfold deSeqRoot
+  cases ty with
+  | tok fs =>
+    dsimp only
+    rcases (hS fs true true toks (slotsInit fs) h).1 with h1 | h1 <;> simp [h1, Rel, Except.map]
+  | plain t =>
+    cases t with
+    | map vt =>
+      dsimp only
+      rcases (hM vt true toks [] h).1 with h1 | h1 <;> simp [h1, Rel]
+    | struct fs =>
+      dsimp only
+      rcases (hS fs false true toks (slotsInit fs) h).1 with h1 | h1 <;> simp [h1, Rel, Except.map]
+    | _ => exact Rel.refl _
+
 end Jomini.BinDe
